@@ -63,13 +63,15 @@ type elem struct {
 }
 
 type layout struct {
-	els     []*elem
-	ism     bool
-	som     bool
-	tracks  int
-	nsegInt int    // intended number of segments
-	delim   string // which delimiter the generator made consistent: styp sidx tfra som none mixed
-	desc    string
+	els          []*elem
+	ism          bool
+	som          bool
+	tracks       int
+	nsegInt      int    // intended number of segments
+	delim        string // which delimiter the generator made consistent: styp sidx tfra som none mixed
+	desc         string
+	refTrack     uint32
+	refTimescale uint32
 }
 
 func encodeBox(b mp4.Box) []byte {
@@ -141,9 +143,25 @@ func kindOf(typ string) byte {
 
 // ---------------------------------------------------------------- box builders
 
+var kindOrders = [][]string{{"video", "audio", "audio"}, {"audio", "video", "audio"}, {"audio", "audio", "audio"}}
+
+// refTrackOf: the track UpdateSidx is documented to index: first video, else first audio
+func refTrackOf(tracks, order int) (id uint32, timescale uint32) {
+	for i := 0; i < tracks; i++ {
+		if kindOrders[order][i] == "video" {
+			return uint32(i + 1), uint32(1000 * (i + 1))
+		}
+	}
+	return 1, 1000
+}
+
 func mkInit(tracks int, progressive bool, uniq uint32) (ftyp, moov []byte) {
+	return mkInitOrder(tracks, progressive, uniq, 0)
+}
+
+func mkInitOrder(tracks int, progressive bool, uniq uint32, order int) (ftyp, moov []byte) {
 	init := mp4.CreateEmptyInit()
-	kinds := []string{"video", "audio", "audio"}
+	kinds := kindOrders[order]
 	for i := 0; i < tracks; i++ {
 		init.AddEmptyTrack(uint32(1000*(i+1)), kinds[i%3], "und")
 	}
@@ -157,7 +175,9 @@ func mkInit(tracks int, progressive bool, uniq uint32) (ftyp, moov []byte) {
 	return encodeBox(init.Ftyp), encodeBox(init.Moov)
 }
 
-func mkStyp(uniq uint32) []byte { return encodeBox(mp4.NewStyp("cmfs", uniq, []string{"dash", "msdh"})) }
+func mkStyp(uniq uint32) []byte {
+	return encodeBox(mp4.NewStyp("cmfs", uniq, []string{"dash", "msdh"}))
+}
 
 func mkEmsg(uniq uint32) []byte {
 	return encodeBox(&mp4.EmsgBox{Version: 1, TimeScale: 1000, PresentationTime: uint64(uniq), EventDuration: 10,
@@ -580,7 +600,9 @@ func (g *gen) fragment(tracks int, base []uint64, seg, frag int, randomDur bool)
 // structured generator: a well-formed fragmented file whose delimiters agree with the intended segmentation
 func (g *gen) structured(nseg, nfrag, tracks int, delim string, emsg, sameFragCount bool, nz bool) *layout {
 	l := &layout{tracks: tracks, nsegInt: nseg, delim: delim}
-	ft, mv := mkInit(tracks, false, g.u())
+	order := g.r.Intn(3)
+	l.refTrack, l.refTimescale = refTrackOf(tracks, order)
+	ft, mv := mkInitOrder(tracks, false, g.u(), order)
 	l.els = append(l.els, &elem{kind: 'f', data: ft, seg: -1, frag: -1}, &elem{kind: 'v', data: mv, stts: true, seg: -1, frag: -1})
 	base := make([]uint64, tracks)
 	if nz {
@@ -617,7 +639,7 @@ func (g *gen) structured(nseg, nfrag, tracks int, delim string, emsg, sameFragCo
 	var moofIdx []int
 	for s := 0; s < nseg; s++ {
 		segFirst[s] = len(l.els)
-		if delim == "styp" || delim == "stypsidx" {
+		if delim == "styp" || delim == "stypsidx" || delim == "styptfra" {
 			l.els = append(l.els, &elem{kind: 's', data: mkStyp(g.u()), seg: s, frag: -1})
 			if delim == "stypsidx" {
 				ns := 1 + g.r.Intn(2)
@@ -653,7 +675,7 @@ func (g *gen) structured(nseg, nfrag, tracks int, delim string, emsg, sameFragCo
 	}
 	var mfraEl *elem
 	switch delim {
-	case "tfra":
+	case "tfra", "styptfra":
 		mfraEl = &elem{kind: 'r', mfro: true, seg: -1, frag: -1}
 		for t := 0; t < tracks; t++ {
 			mfraEl.tfras = append(mfraEl.tfras, tfraT{track: uint32(t + 1), offs: make([]uint64, nseg)})
@@ -698,7 +720,7 @@ func (g *gen) structured(nseg, nfrag, tracks int, delim string, emsg, sameFragCo
 		}
 	}
 	if mfraEl != nil {
-		if delim == "tfra" {
+		if delim == "tfra" || delim == "styptfra" {
 			for t := range mfraEl.tfras {
 				for s := 0; s < nseg; s++ {
 					mfraEl.tfras[t].offs[s] = l.els[segMoof[s]].pos
@@ -722,7 +744,7 @@ func (g *gen) structured(nseg, nfrag, tracks int, delim string, emsg, sameFragCo
 	}
 	l.place()
 	switch delim {
-	case "tfra", "tfraf":
+	case "tfra", "tfraf", "styptfra":
 		l.ism = true
 	case "som":
 		l.som = true
@@ -949,7 +971,7 @@ func orDash(s string) string {
 	return s
 }
 
-var delims = []string{"none", "styp", "stypsidx", "sidx", "sidx2", "sidxh", "tfra", "tfraf", "som"}
+var delims = []string{"none", "styp", "stypsidx", "styptfra", "sidx", "sidx2", "sidxh", "tfra", "tfraf", "som"}
 
 func flagCombos(l *layout, f func(tag string)) {
 	ism0, som0 := l.ism, l.som
